@@ -29,6 +29,7 @@ struct Event { int thread; int op; unsigned arg; };   // op: 0 srand_, 1 rand_, 
 struct Scheduler {
   std::mutex m; std::condition_variable cv;
   bool active = false;
+  bool fine = false;            // also yield at the exit hook of every generator call (between its state update and its return)
   std::vector<Th> th;            // index 0 = the thread that activated the scheduler (the caller of the library routine)
   int current = 0;
   std::vector<int> choices; size_t pos = 0;
@@ -63,7 +64,8 @@ struct Scheduler {
     int self = self_index(); if (self < 0) return;
     switch_from(self, lk);
   }
-  void start(const std::vector<int> &ch) {
+  void start(const std::vector<int> &ch, bool fine_ = false) {
+    fine = fine_;
     std::unique_lock<std::mutex> lk(m);
     th.clear(); Th t0; t0.handle = pthread_self(); th.push_back(t0);
     g_epoch++; tl_index = 0; tl_epoch = g_epoch;
@@ -97,11 +99,11 @@ inline void *trampoline(void *p) {
 // the RNG hook (H2): a yield point at the entry of every generator call
 inline void rng_hook(int op, unsigned arg, int phase) {
   Scheduler &s = S();
-  if (!s.active || phase != 0) return;
+  if (!s.active || (phase != 0 && !s.fine)) return;
   int self;
   { std::unique_lock<std::mutex> lk(s.m); self = s.self_index(); if (self < 0) return; }
   s.yield();
-  { std::unique_lock<std::mutex> lk(s.m); s.trace.push_back({self, op, arg}); }
+  if (phase == 0) { std::unique_lock<std::mutex> lk(s.m); s.trace.push_back({self, op, arg}); }
 }
 
 // next choice vector in depth-first order; returns false when the space is exhausted
